@@ -17,7 +17,8 @@ func init() {
 		decided: "a `no match` verdict for a case is only issued after every alternative was tried (no `return false, nil` inside the alternatives loop); cases are tried in slice order and the first matching case returns before any later case is looked at; the no-match exit yields null; bindings are stored into a freshly pushed frame before the body is evaluated; the pattern table: literal -> subject.Equals(literal), identifier -> bind the subject, array -> tag and length test then element-wise recursion, anything else -> error; an expression body yields the body's value, a block body null." +
 			" A successfully evaluated literal is always compared, by Value.Equals; the binding map returned with a match is made for the alternative that matched; a `{ … }` body reaches the evaluator as the block itself." +
 			" Every case is handed to the pattern matcher (no pre-filter on the evaluator's side)." +
-			" After the subject is evaluated no successful return bypasses the loop over the cases; each match evaluation has a frame of its own.",
+			" After the subject is evaluated no successful return bypasses the loop over the cases; each match evaluation has a frame of its own." +
+			" The bindings of matched elements are merged unconditionally.",
 		notDecided: "Compare semantics (C05); that bindings of a failed alternative are discarded is implied by the fresh map per alternative, which is checked, not the values bound.",
 	})
 }
